@@ -93,7 +93,12 @@ def run(ctx):
                     f_, e_ = sorted([e.atom[2], e.atom[3]], key=lambda t: t[1].endswith('::end'))
                     if f_[1] in ('std::find', 'boost::range::find') and f_[3][-1] in loopvars:
                         waiting = not e.pol
-            if waiting is None:
+            if waiting is None and fins and not any(e.kind == 'branch' and any(ex.mentions(e.atom, lv) for lv in loopvars) for e in evs):
+                # finish() asserts that exactly one simcall waits on the acquisition: calling it with no test of the queued acquisition at all
+                ctx.violation('R2', 'release finishes a queued acquisition iff its issuer is blocked on it', where(aa, fins[0].line),
+                              'finish() is called on a queued acquisition with no test that its issuer is blocked on it (an actor that has not reached its wait yet has no simcall to answer)',
+                              key='R2|acquire_async|finish iff waiting')
+            elif waiting is None:
                 ctx.unrecognised('R2', 'release: membership test in waiting_synchros_ not recognised')
             else:
                 ctx.check((len(fins) == 1) == waiting, 'R2', 'release finishes a queued acquisition iff its issuer is blocked on it (waiting=%s)' % waiting, where(aa), 'finish x%d' % len(fins), key='R2|acquire_async|finish iff waiting')
